@@ -3,7 +3,7 @@ import math
 
 import numpy as np
 
-from vlib import scenario, record, agp_model
+from vlib import ambient, scenario, record, agp_model, stoprule
 
 LEVEL = "exploration"
 RULE = ("(a) full grid itersLimit in 1..5 x eps in {3,1.5,1,0.9,0.5,0.1,0.01} x N in 1..5 x 4 objectives; (b) eps set exactly "
@@ -102,6 +102,8 @@ def cases(tier, seed):
             b = int(rng.integers(1, min(scn["iters"], 40)))
             scn["pattern"] = [["iter", b], ["solve"]]
         out.append(scn)
+    # workloads written by the repository's authors (shipped examples, solving tests) under the same oracle
+    out += ambient.ambient_cases(tier)
     return out
 
 
@@ -114,6 +116,8 @@ def ulps(a, b):
 
 
 def run_case(scn):
+    if "ambient" in scn:
+        return ambient.run_ambient_case(scn, "C03")
     marks = []
     holder = {}
 
@@ -152,57 +156,27 @@ def run_case(scn):
         viol.append({"mech": "trial-log-unusable", "msg": "trial sequence could not be replayed by the model", "detail": a["violations"][:2]})
         return {"violations": viol, "obs": obs}
 
-    def cond(k, lim, strict_ulp=2):
-        """stop criterion after k trials under limit lim; True / False / None (undecidable within 2 ulp)."""
-        if k >= lim:
-            return True
-        sub = [L for L in lens[1:k] if L is not None]
-        if not sub:
-            return None if eps > 1.0 else False
-        mn = min(sub)
-        if mn != eps and ulps(mn, eps) <= strict_ulp:
-            return None
-        return mn < eps
-
     # every Solve step is judged with the limit in force and the trials already made when it was called
     lim = scn["iters"]
     before = 0
-    reason = None
-    nsolve = 0
+    solves = []
     for n, step in enumerate(pattern):
         after = marks[n] if n < len(marks) else T
         if step[0] == "set" and step[1] == "itersLimit":
             lim = step[2]
         elif step[0] == "solve":
-            nsolve += 1
-            B, Ts = before, after
-            if Ts > max(lim, B):
-                viol.append({"mech": "budget-exceeded", "evaluations": Ts, "itersLimit": lim, "made_before_this_solve": B, "step": n})
-            for k in range(max(B, 1), Ts):
-                if cond(k, lim) is True:
-                    viol.append({"mech": "stopped-late", "msg": "stop criterion already held after %d trials but Solve went on to %d" % (k, Ts),
-                                 "eps": eps, "itersLimit": lim, "step": n, "min_len": min([L for L in lens[1:k] if L is not None] or [float("inf")])})
-                    break
-            if cond(Ts, lim) is False:
-                viol.append({"mech": "stopped-early", "msg": "Solve stopped after %d trials but the stop criterion does not hold" % Ts,
-                             "eps": eps, "itersLimit": lim, "step": n, "min_len": min([L for L in lens[1:Ts] if L is not None] or [float("inf")])})
-            subs = [L for L in lens[1:Ts] if L is not None]
-            reason = "budget" if (Ts >= lim and not (subs and min(subs) < eps)) else "accuracy"
-            obs["stop_" + reason] = obs.get("stop_" + reason, 0) + 1
-            if B > 0 and Ts > B:
-                obs["solves_continuing_earlier_work"] = obs.get("solves_continuing_earlier_work", 0) + 1
+            solves.append((before, after, lim, eps, n))
         before = after
+    v2, o2, reason = stoprule.judge(lens, solves)
+    viol += v2
+    for k_, v_ in o2.items():
+        obs[k_] = obs.get(k_, 0) + v_
     sub = [L for L in lens[1:T] if L is not None]
     acc = float(sol.solutionAccuracy)
-    if sub:
-        exp = min(sub)
-        if ulps(acc, exp) > 4:
-            viol.append({"mech": "accuracy-mismatch", "reported": acc, "expected": exp, "T": T})
-        obs["accuracy_checked"] = 1
-    else:
-        if not (acc == float("inf") or acc == 1.0):
-            viol.append({"mech": "accuracy-mismatch", "reported": acc, "expected": "inf (or 1) with a single trial"})
-        obs["single_trial_runs"] = 1
+    av, kind = stoprule.accuracy(lens, T, acc)
+    if av:
+        viol.append(av)
+    obs["accuracy_checked" if kind == "checked" else "single_trial_runs"] = 1
     if any(L == eps for L in sub):
         obs["equality_hit"] = 1          # an interval of length exactly eps was subdivided and the run went on
     nl = len([e for e in t.log if e["ph"] == "l"])
